@@ -5,6 +5,8 @@ package main
 import (
 	"fmt"
 	"os"
+	"os/signal"
+	"syscall"
 )
 
 const usage = `usage: gr <command> [flags]
@@ -20,6 +22,8 @@ exit status: 0 the tool worked (whatever it found), 2 tool failure
 `
 
 func main() {
+	// a closed stderr/stdout pipe (… | head) must not kill the tool before it has cleaned up
+	signal.Ignore(syscall.SIGPIPE)
 	if len(os.Args) < 2 {
 		fmt.Fprint(os.Stderr, usage)
 		os.Exit(2)
